@@ -43,9 +43,11 @@ PROBES = ["derived_object_as_base_argument", "same_object_two_handles", "delete_
 def batches(tier):
     if tier == "thorough":
         return [dict(name="hist", runs=60000, budget_s=1100, per_run_timeout=180),
-                dict(name="thisargs", runs=600, budget_s=30, per_run_timeout=180)]
+                dict(name="thisargs", runs=600, budget_s=30, per_run_timeout=180),
+                dict(name="stale", runs=600, budget_s=30, per_run_timeout=180)]
     return [dict(name="hist", runs=1600, budget_s=55, per_run_timeout=120),
-            dict(name="thisargs", runs=48, budget_s=8, per_run_timeout=120)]
+            dict(name="thisargs", runs=48, budget_s=8, per_run_timeout=120),
+            dict(name="stale", runs=48, budget_s=8, per_run_timeout=120)]
 
 
 def nprograms(tier):
@@ -539,11 +541,15 @@ class Hist:
         crashed = None
         try:
             n = 8 + self.t.choose(52, "n-steps")
+            if self.stale_mode:
+                n = 3 + self.t.choose(10, "n-steps")
             for _ in range(n):
                 if self.viol:
                     break
                 self.step()
-            if not self.viol:
+            if not self.viol and self.stale_mode:
+                self.stale_delete()
+            elif not self.viol:
                 self.final_unload()
         except S.DriverDied as e:
             crashed = e
@@ -551,7 +557,13 @@ class Hist:
             self.s.close()
             return {"harness": "protocol", "detail": str(e) + " | " + " ; ".join(self.s.log[-6:])}
         rc, err = (crashed.rc, crashed.stderr) if crashed else self.s.close()
-        if crashed is not None or rc not in (0, None) or "ERROR: AddressSanitizer" in err or "runtime error:" in err:
+        if self.in_stale_delete and (crashed is not None or "AddressSanitizer" in err):
+            m = re.search(r"AddressSanitizer: ([a-z\-]+)", err)
+            self.viol.insert(0, {"inv": "G4", "sig": "G4:stale-handle-delete-after-unload",
+                                 "detail": "`clear mex` with %d live MATLAB objects emptied the collectors; deleting one of the "
+                                           "surviving objects afterwards freed its handle a second time (%s) at `%s`" %
+                                           (self.stale_objects, m.group(1) if m else "driver died", self.steps[-1])})
+        elif crashed is not None or rc not in (0, None) or "ERROR: AddressSanitizer" in err or "runtime error:" in err:
             first = [ln for ln in err.splitlines() if "ERROR" in ln or "runtime error" in ln or "MEXSIM-FATAL" in ln][:1]
             kind = "asan" if "AddressSanitizer" in err else ("ubsan" if "runtime error" in err else
                                                             ("mexsim-fatal" if "MEXSIM-FATAL" in err else "crash"))
@@ -989,6 +1001,32 @@ class Hist:
         self.finish_step("unload")
 
     unloaded = False
+    stale_mode = False
+    in_stale_delete = False
+    stale_objects = 0
+
+    def stale_delete(self):
+        """`clear mex` while MATLAB objects are alive (MATLAB allows it; the generated _deleteAllObjects
+        prints a warning), then the surviving objects are cleared: their delete methods run."""
+        objs = sorted(self.s.objects.values(), key=lambda o: o.oid)
+        if not objs:
+            return
+        self.steps.append("clear mex with %d live objects" % len(objs))
+        self.stale_objects = len(objs)
+        self.s.unload()
+        st = self.s.last_state
+        if any(st["coll"].values()):
+            self.add("G6", "G6:collector-not-empty", "after unload collectors hold %s" % st["coll"])
+            return
+        extra = sorted(set(st["live"]) - self.with_members(self.tr.retained))
+        if extra:
+            self.add("G6", "G6:leak-after-unload", "objects %s survive the unload" % extra)
+            return
+        o = self.t.pick(objs, "stale-obj")
+        self.steps.append("clear the stale object %r" % o)
+        self.in_stale_delete = True
+        self.s.delete(o)
+        self.s.simple("state", "trace")
 
     def final_unload(self):
         objs = sorted(self.s.objects.values(), key=lambda o: o.oid)
@@ -1016,6 +1054,7 @@ def run_one(batch, tape, ctx):
                 "digest": "compile-%d" % k, "nontrivial": False, "stats": {"runs": 1}, "faults": {}, "probes": {},
                 "steps": 0, "sample": {"program": k}}
     h = Hist(tape, info)
+    h.stale_mode = batch == "stale"
     h.propvals = {}
     r = h.run(info["drv"])
     if r is not None:
